@@ -246,4 +246,7 @@ def u(ctx):
         if not kinds or "fmt" in b.path:
             continue
         hit = [v for p, v in pats if p.search(b.path)]
+        if not hit and b.kind == "Closure" and b.parent_fn:
+            # a closure inside an enumerated writer is part of that function: the lemma that covers the function reads it with its closures evaluated in place
+            hit = ["closure of %s: %s" % (b.parent_fn, v) for p, v in pats if p.search(b.parent_fn)]
         yield Ob(key_of("C01-U", b.path, "writer"), bool(hit), "%s writes memory (%s): %s" % (b.path, ", ".join(sorted(kinds)), hit[0] if hit else "NOT in the enumerated writer set - which lemma covers it?"), b.loc())
